@@ -177,7 +177,7 @@ func genOp(t *rapid.T, c *Case, verts []gen.P, scale float64) Op {
 	if c.Kind == "loop" || c.Kind == "polygon" {
 		ks := []string{"cp", "cp", "cp", "cc", "cc", "ic", "ic", "cells"}
 		if len(c.Others) > 0 {
-			ks = append(ks, "con", "int", "ocon", "oint", "con", "int")
+			ks = append(ks, "con", "int", "ocon", "oint", "con", "int", "con", "int", "ocon")
 		}
 		o.K = rapid.SampledFrom(ks).Draw(t, "k")
 		switch o.K {
@@ -244,7 +244,7 @@ func genCase(mode string) func(t *rapid.T) Case {
 			c.Loop = gen.Loop(t, "l", maxN)
 			ctr := c.Loop.Inside.Pt()
 			scale = scaleOf(ctr, c.Loop.V)
-			for i, n := 0, rapid.IntRange(0, 2).Draw(t, "nothers"); i < n; i++ {
+			for i, n := 0, rapid.SampledFrom([]int{0, 1, 1, 2, 2}).Draw(t, "nothers"); i < n; i++ {
 				oc := ctr
 				if rapid.Bool().Draw(t, "ov") {
 					oc = c.Loop.V[rapid.IntRange(0, len(c.Loop.V)-1).Draw(t, "ovi")].Pt()
@@ -263,7 +263,7 @@ func genCase(mode string) func(t *rapid.T) Case {
 			c.Rings = rp.Rings
 			ctr := rp.Center.Pt()
 			scale = scaleOf(ctr, rp.Rings[0])
-			for i, n := 0, rapid.IntRange(0, 2).Draw(t, "nothers"); i < n; i++ {
+			for i, n := 0, rapid.SampledFrom([]int{0, 1, 1, 2, 2}).Draw(t, "nothers"); i < n; i++ {
 				oc := ctr
 				if rapid.IntRange(0, 2).Draw(t, "ov") == 0 {
 					oc = rp.Rings[0][rapid.IntRange(0, len(rp.Rings[0])-1).Draw(t, "ovi")].Pt()
